@@ -79,6 +79,40 @@ def _work(hi, tier, seed):
     return part
 
 
+def strat_work(shard, per_macro, seed):
+    """macrovector-stratified classes: the same number of random members for each of the 270 macrovectors (uniform
+    sampling of assignments almost never visits the thin ones), random spelling, fresh thread for odd shards"""
+    if shard % 2:
+        return runner.in_thread(_strat, shard, per_macro, seed)
+    return _strat(shard, per_macro, seed)
+
+
+def _strat(shard, per_macro, seed):
+    import cvss
+    CVSS4 = cvss.CVSS4
+    part = runner.Part(PID)
+    rng = random.Random(runner.mix(seed, 22, shard))
+    keys = sorted(oracles.look())[shard::runner.NPROC]
+    wf = scorecheck.well_formed_float
+    for key in keys:
+        for _ in range(per_macro):
+            e = oracles.random_in_macro(rng, key)
+            exp, q, nlow, dsum = oracles.fast4(e)
+            v = gen.realise4(rng, e)
+            try:
+                got = CVSS4(v).scores()
+                ok = got == (exp,) and wf(got[0])
+            except Exception:
+                ok = False
+            part.evaluations += 1
+            if not ok:
+                part.bad.append(v)
+            if q is not None and dsum > 0 and nlow > 0:
+                part.nontrivial_count += 1
+        part.classes["macrovector-stratified"] += per_macro
+    return part
+
+
 def hyp_part(n_examples, shard):
     from hypothesis import given
     part = runner.Part(PID)
@@ -134,6 +168,8 @@ def run(tier, t0):
     part = runner.Part(PID)
     for p in runner.parallel("vf.props.c02", "work", [(h, tier, runner.SEED) for h in range(len(HEADS))]):
         part.merge(p)
+    for p in runner.parallel("vf.props.c02", "strat_work", [(sh, 300 if tier == "quick" else 3000, runner.SEED) for sh in range(runner.NPROC)]):
+        part.merge(p)
     scorecheck.record_bad_vectors(part, "4", "score4", CHECKS["score4"], part.bad)
     extremes(part)
     part.merge(runner.hyp_shards("vf.props.c02", "hyp_part", 3200 if tier == "quick" else 48000))
@@ -146,7 +182,7 @@ def run(tier, t0):
             "non-trivial = non-zero-impact class with a positive severity distance and at least one existing "
             "lower macrovector (interpolation happens); classes distinct by construction")
     required = ["zero-impact", "n_lower=0", "n_lower=5", "eq3eq6=00", "eq3eq6=01", "eq3eq6=10", "eq3eq6=11",
-                "eq3eq6=21", "macrovector-extreme", "hypothesis"]
+                "eq3eq6=21", "macrovector-extreme", "macrovector-stratified", "hypothesis"]
     return runner.finish(
         part, tier, t0, rule,
         ["270-entry macrovector lookup table is a pinned copy (cannot be re-derived offline); highest-severity "
